@@ -3,7 +3,7 @@
    so every complete run of the ticker -- any answer order -- updates the same components with
    the same changes as Model/Sim.v does. *)
 From TV Require Import Base Model.Wiring Model.Ticker Model.Component Model.Sim Model.Inline Model.NSim
-  Proofs.WiringP Proofs.TickerP Proofs.SimP Proofs.NonInterfP Proofs.LatestP Proofs.ExtentP Proofs.EqvP Proofs.InlineP
+  Proofs.WiringP Proofs.TickerP Proofs.SimP Proofs.NonInterfP Proofs.LatestP Proofs.ExtentP Proofs.EqvP Proofs.ParDevP Proofs.InlineP
   Proofs.InlineLatestP Proofs.Confluence2P Proofs.ScheduleP.
 Open Scope Z_scope.
 
